@@ -218,18 +218,43 @@ func checkC08(w *World, r *Report) {
 				}
 			}
 			r.Check(ok && n == 1, "C08.pool", "the pool debited is selected by exact equality with the requested name", w.Pos(pl.Body.Instrs[0].Pos()), "pool.Name == vestingPoolName", "the pool is not selected by exact equality of its name with the requested name, while names are kept unique by exact equality only: with two names that the looser test identifies, another pool than the one named is debited (its counter, its availability, its vesting type)")
-			// sibling: uniqueness at creation uses the same comparison
-			if add := w.Func("x/cfevesting/keeper.Keeper.addVestingPool"); add != nil {
+			// sibling: uniqueness at creation uses the same comparison (looked for in pool creation and the helpers it calls)
+			if create := w.Func("x/cfevesting/keeper.Keeper.CreateVestingPool"); create != nil {
 				okU := false
-				for _, b := range add.Blocks {
-					if i := blockIf(b); i != nil {
-						base, _ := stripNot(i.Cond)
-						if bo, isB := base.(*ssa.BinOp); isB && (bo.Op == token.EQL || bo.Op == token.NEQ) && (loadOfField(bo.X, "Name", nil) || loadOfField(bo.Y, "Name", nil)) {
-							okU = true
+				fns := []*ssa.Function{create}
+				for _, e := range w.effectsBelow(create, func(s *Site) bool { return false }, 0) {
+					_ = e
+				}
+				seenF := map[*ssa.Function]bool{create: true}
+				for depth := 0; depth < 2; depth++ {
+					for _, f := range append([]*ssa.Function{}, fns...) {
+						for _, s := range cg.Sites[f] {
+							if h := s.Static; h != nil && !s.Invoke && h.Blocks != nil && w.isProdFunc(h) && !seenF[h] && !isGeneratedFile(w.FileOf(h.Pos())) {
+								seenF[h] = true
+								fns = append(fns, h)
+							}
 						}
 					}
 				}
-				r.Check(okU, "C08.pool", "pool names are unique per owner by exact equality", w.Pos(add.Pos()), "addVestingPool rejects an equal name", "no exact-equality uniqueness test at pool creation")
+				var where *ssa.Function
+				for _, f := range fns {
+					for _, b := range f.Blocks {
+						if i := blockIf(b); i != nil {
+							base, _ := stripNot(i.Cond)
+							if bo, isB := base.(*ssa.BinOp); isB && (bo.Op == token.EQL || bo.Op == token.NEQ) && (loadOfField(bo.X, "Name", nil) || loadOfField(bo.Y, "Name", nil)) {
+								okU = true
+								where = f
+							}
+						}
+					}
+				}
+				pos := w.Pos(create.Pos())
+				if where != nil {
+					pos = w.Pos(where.Pos())
+				}
+				r.Check(okU, "C08.pool", "pool names are unique per owner by exact equality", pos, "pool creation rejects an equal name", "no exact-equality uniqueness test at pool creation")
+			} else {
+				r.Unk("infra.anchor", "x/cfevesting/keeper.Keeper.CreateVestingPool", "", "anchor not found")
 			}
 		}
 	}
